@@ -144,6 +144,8 @@ type c14Input struct {
 	// that epoch's input was of high quality (committee elections allowed).
 	VRFProvers  []signature.PublicKey `json:"vrf_provers,omitempty"`
 	VRFCanElect bool                  `json:"vrf_can_elect,omitempty"`
+	// PrevCommittees is the number of committees in the state before the election.
+	PrevCommittees int `json:"prev_committees,omitempty"`
 }
 
 // c14Output is the result of the scheduler's BeginBlock.
@@ -257,6 +259,9 @@ func (o *c14Oracle) capturePre(rep int, ctx *cmtapi.Context) {
 	if in.PrevVals, err = ss.CurrentValidators(ctx); err != nil {
 		fail("current validators", err)
 		return
+	}
+	if pc, err := ss.AllCommittees(ctx); err == nil {
+		in.PrevCommittees = len(pc)
 	}
 	st := stakingState.NewImmutableState(ctx.State())
 	if in.Thresholds, err = st.Thresholds(ctx); err != nil {
@@ -932,6 +937,9 @@ func c14CheckCommittees(st *core.Stats, c *c14Capture) (int, *core.Violation) {
 	// have been registered since before the previous epoch transition.
 	vrfBlocked := e.vrf() && !in.VRFCanElect && !in.Sched.DebugAllowWeakAlpha
 	if e.vrf() {
+		if vrfBlocked && in.PrevCommittees > 0 {
+			st.Inc("probe.c14.vrf.weak_alpha_right_after_an_epoch_with_a_committee")
+		}
 		if vrfBlocked {
 			st.Inc("probe.c14.vrf.committee_elections_blocked_by_weak_alpha")
 		} else {
